@@ -21,6 +21,7 @@ fn main() {
     let mut leg: Option<String> = None;
     let mut legs: Vec<(String, String)> = Vec::new();
     let mut extra: Vec<String> = Vec::new();
+    let mut child = false;
     let mut i = 1;
     while i < args.len() {
         match args[i].as_str() {
@@ -52,10 +53,17 @@ fn main() {
                     }
                 }
             }
+            "--child" => child = true,
             other => extra.push(other.to_string()),
         }
         i += 1;
     }
+    // every native workload runs in a child of this process, so that a failure that kills the process
+    // (allocation failure, stack overflow, double panic) still ends in a verdict
+    if !child && leg.is_none() && !cfg!(miri) && std::env::var("LV_NO_SUPERVISOR").is_err() {
+        std::process::exit(supervise(&args, &prop, tier, seed, replay.as_deref()));
+    }
+    lv::abort::install();
     install_panic_hook();
     let mut run = Run::new(&prop, tier, seed);
     run.leg = leg;
@@ -87,4 +95,116 @@ fn main() {
     }
     let code = run.finish();
     std::process::exit(code);
+}
+
+/// Run `lv <args> --child`, pass its output through, and turn a death by signal into a verdict.
+fn supervise(args: &[String], prop: &str, tier: Tier, seed: u64, replay: Option<&str>) -> i32 {
+    use std::io::{BufRead, BufReader};
+    use std::process::{Command, Stdio};
+    let exe = std::env::current_exe().expect("current_exe");
+    let run_child = |extra: &[String]| -> (Option<i32>, Option<lv::abort::AbortLine>, Vec<String>) {
+        let mut c = match Command::new(&exe).args(extra).arg("--child").stdin(Stdio::null()).stderr(Stdio::piped()).spawn() {
+            Ok(c) => c,
+            Err(e) => {
+                eprintln!("ERROR cannot start the workload process: {}", e);
+                return (Some(2), None, Vec::new());
+            }
+        };
+        let err = c.stderr.take().unwrap();
+        let mut abort_line = None;
+        let mut tail: Vec<String> = Vec::new();
+        for line in BufReader::new(err).split(b'\n') {
+            let Ok(line) = line else { break };
+            let line = String::from_utf8_lossy(&line).to_string();
+            eprintln!("{}", line);
+            if abort_line.is_none() {
+                if let Some(a) = lv::abort::parse_abort_line(&line) {
+                    abort_line = Some(a);
+                    continue;
+                }
+            }
+            if !line.trim().is_empty() && !line.starts_with("LV-ABORT") {
+                tail.push(line);
+                if tail.len() > 12 {
+                    tail.remove(0);
+                }
+            }
+        }
+        let st = c.wait().ok();
+        let code = st.and_then(|s| s.code());
+        (code, abort_line, tail)
+    };
+    let (code, abort_line, tail) = run_child(args);
+    match code {
+        Some(c) if c != 134 && c != 139 => return c,
+        _ => {}
+    }
+    // the workload process died from a signal
+    let what = tail
+        .iter()
+        .rev()
+        .find(|l| l.contains("memory allocation of") || l.contains("overflowed its stack") || l.contains("panicked while processing panic") || l.contains("panic in a function that cannot unwind") || l.contains("capacity overflow"))
+        .cloned()
+        .unwrap_or_else(|| "no message".to_string());
+    let what = lv::ctx::panic_class(&what);
+    let Some(a) = abort_line else {
+        println!("INCONCLUSIVE property={} the workload process died from a signal (exit {:?}) without naming the case in flight: {}", prop, code, what);
+        return 2;
+    };
+    if replay.is_some() {
+        // this was the replay of a single case: it killed the process again
+        println!("VIOLATION property={} replay={}", prop, replay.unwrap());
+        println!("  signature: the process is killed (signal {}: {}) [{}]", a.signal, what, a.sub);
+        println!("REPLAY property={} violations=1 evaluations=0", prop);
+        return 1;
+    }
+    // replay the candidates one at a time in fresh processes; only a case that kills the process on its own counts
+    let mut cands: Vec<u64> = a.own.into_iter().collect();
+    for x in &a.active {
+        if !cands.contains(x) {
+            cands.push(*x);
+        }
+    }
+    let dir = format!("{}/target/abort-probe", lv::ctx::VERIF_DIR);
+    let _ = std::fs::create_dir_all(&dir);
+    for idx in cands.iter().take(64) {
+        let path = format!("{}/{}-{}-{}.json", dir, prop, std::process::id(), idx);
+        let rep = json::J::obj().set("property", prop).set("tier", tier.name()).set("seed", seed).set("sub", a.sub.clone()).set("index", *idx);
+        if std::fs::write(&path, rep.to_string_pretty()).is_err() {
+            continue;
+        }
+        let probe_args: Vec<String> = vec![prop.to_string(), "--tier".into(), tier.name().into(), "--seed".into(), seed.to_string(), "--replay".into(), path.clone()];
+        eprintln!("[supervisor] replaying {}[{}] alone", a.sub, idx);
+        let (pc, pa, ptail) = run_child(&probe_args);
+        let _ = std::fs::remove_file(&path);
+        let died = !matches!(pc, Some(c) if c != 134 && c != 139);
+        if died {
+            let what2 = ptail
+                .iter()
+                .rev()
+                .find(|l| l.contains("memory allocation of") || l.contains("overflowed its stack") || l.contains("panicked while processing panic") || l.contains("cannot unwind"))
+                .map(|l| lv::ctx::panic_class(l))
+                .unwrap_or_else(|| what.clone());
+            let sig_no = pa.map(|x| x.signal).unwrap_or(a.signal);
+            let mut run = Run::new(prop, tier, seed);
+            run.merged.cur_sub = a.sub.clone();
+            run.merged.cur_idx = *idx;
+            run.merged.violation(
+                format!("the process is killed (signal {}: {}) [{}]", sig_no, what2, a.sub),
+                json::J::obj()
+                    .set("what", "the case ends the whole process instead of returning or panicking; reproduced by replaying the case alone in a fresh process")
+                    .set("stderr_tail", json::J::A(ptail.iter().map(|s| json::J::S(s.clone())).collect())),
+            );
+            run.assumptions.push("the workload process died from a signal; this evidence was written by the supervising process and only describes the fatal case".to_string());
+            return run.finish();
+        }
+    }
+    println!(
+        "INCONCLUSIVE property={} the workload process died from a signal ({}) in {} but none of the {} cases in flight reproduces it alone",
+        prop,
+        what,
+        a.sub,
+        cands.len()
+    );
+    2
 }
